@@ -775,6 +775,9 @@ impl Sim {
         let mut total = 0usize;
         for round in 0..3 {
             self.vm.verif_collect();
+            if self.ballast_audit() {
+                return total;
+            }
             let cap = self.vm.verif_heap().capacity() as f64;
             let used = self.vm.verif_heap().used_size() as f64;
             let missing = target * cap - used;
@@ -793,6 +796,9 @@ impl Sim {
             total += n;
         }
         self.vm.verif_collect();
+        if self.ballast_audit() {
+            return total;
+        }
         {
             let mut c = self.ctl.borrow_mut();
             c.seen_collections = self.vm.verif_state().collections;
@@ -801,6 +807,24 @@ impl Sim {
         self.vm.verif_state_mut().instructions = 0;
         self.vm.verif_state_mut().max_sp = 0;
         total
+    }
+
+    /// the ballast's own collections are audited too: a corrupted heap ends the run at once
+    fn ballast_audit(&mut self) -> bool {
+        let report = audit(&self.vm);
+        let dangerous = report.findings.iter().any(|f| matches!(f.invariant, "I1" | "I3" | "I4"));
+        if !report.findings.is_empty() {
+            let mut c = self.ctl.borrow_mut();
+            c.audit_count += 1;
+            if c.audits.len() < c.max_audit_findings {
+                c.audits.push((0, 0, report));
+            }
+        }
+        if dangerous {
+            self.ctl.borrow_mut().poisoned = true;
+            self.dead = true;
+        }
+        dangerous
     }
 
     pub fn set_gc_mode(&mut self, mode: GcMode) {
